@@ -16,24 +16,29 @@ BOOL_ATOMS = ["b0", "b1", "b2", "b3"]
 INT_ATOMS = ["i0", "i1"]
 INT_CONSTS = [0, 1, 2]
 
-# raw trees: ("atomb", name) ("atomi", name) ("lit", bool) ("int", n) (connective, args...)
+# raw trees: ("atomb", name) ("atomi", name) ("lit", bool) ("int", n) ("appi"/"appb", function name, int args...)
+# (connective, args...)
+_I0, _I1 = ("atomi", "i0"), ("atomi", "i1")
+APPS_INT = [("appi", "f", _I0, _I1), ("appi", "f", _I1, _I0), ("appi", "f", _I0, _I0)]     # applications of f: Int x Int -> Int
+APPS_BOOL = [("appb", "g", _I0, _I1), ("appb", "g", _I1, _I0)]                                # applications of g: Int x Int -> Bool
+LEAF_KINDS = ("atomb", "atomi", "lit", "int", "appi", "appb")
 
 
 def sort_of(t):
     k = t[0]
-    if k in ("atomb", "lit"):
+    if k in ("atomb", "lit", "appb"):
         return "B"
-    if k in ("atomi", "int"):
+    if k in ("atomi", "int", "appi"):
         return "I"
     return "B"
 
 
-def leaves_bool(atoms=BOOL_ATOMS):
-    return [("atomb", a) for a in atoms] + [("lit", True), ("lit", False)]
+def leaves_bool(atoms=BOOL_ATOMS, apps=False):
+    return [("atomb", a) for a in atoms] + [("lit", True), ("lit", False)] + (APPS_BOOL if apps else [])
 
 
-def leaves_int(atoms=INT_ATOMS, consts=INT_CONSTS):
-    return [("atomi", a) for a in atoms] + [("int", c) for c in consts]
+def leaves_int(atoms=INT_ATOMS, consts=INT_CONSTS, apps=False):
+    return [("atomi", a) for a in atoms] + [("int", c) for c in consts] + (APPS_INT if apps else [])
 
 
 def combos(boolpool, intpool, nary=(2, 3), mixed_literals=True):
@@ -69,6 +74,19 @@ def family(tier):
     """fixed list of raw trees"""
     l0b, l0i = leaves_bool(), leaves_int()
     depth2 = combos(l0b, l0i)
+    # applications with permuted / repeated arguments: f(x,y), f(y,x), f(x,x) are three different terms
+    app_cmp = []
+    for a, b in itertools.product(APPS_INT + [("int", 0), _I0], repeat=2):
+        if a[0] == "appi" or b[0] == "appi":
+            app_cmp += [("=", a, b), ("<", a, b), ("<=", a, b), ("distinct", a, b)]
+    app_b = APPS_BOOL + app_cmp
+    depth2 += app_cmp
+    for a, b in itertools.product(APPS_BOOL + [("atomb", "b0"), ("lit", True), ("lit", False)], repeat=2):
+        if a[0] == "appb" or b[0] == "appb":
+            depth2 += [("and", a, b), ("or", a, b), ("=>", a, b), ("=", a, b), ("distinct", a, b)]
+    depth2 += [("not", a) for a in app_b]
+    for a, b in itertools.product(app_cmp[:: (3 if tier == "quick" else 1)], [("atomb", "b0"), ("lit", True), ("lit", False)] + app_cmp[:6]):
+        depth2 += [("=>", a, b), ("and", a, b), ("or", ("not", a), b)]
     small_b = leaves_bool(BOOL_ATOMS[:2])
     small_i = leaves_int(INT_ATOMS[:1], [0, 1])
     s1 = combos(small_b, small_i, nary=(2,), mixed_literals=True)
@@ -111,7 +129,7 @@ def family(tier):
         return res
 
     def depth_of(t):
-        if t[0] in ("atomb", "atomi", "lit", "int"):
+        if t[0] in LEAF_KINDS:
             return 1
         return 1 + max(depth_of(a) for a in t[1:])
 
@@ -130,6 +148,8 @@ def family(tier):
 def z3_atoms():
     env = {a: z3.Bool(a) for a in BOOL_ATOMS}
     env.update({a: z3.Int(a) for a in INT_ATOMS})
+    env["f"] = z3.Function("f", z3.IntSort(), z3.IntSort(), z3.IntSort())
+    env["g"] = z3.Function("g", z3.IntSort(), z3.IntSort(), z3.BoolSort())
     return env
 
 
@@ -142,6 +162,8 @@ def raw_to_z3(t, env):
         return z3.BoolVal(t[1])
     if k == "int":
         return z3.IntVal(t[1])
+    if k in ("appi", "appb"):
+        return env[t[1]](*[raw_to_z3(a, env) for a in t[2:]])
     args = [raw_to_z3(a, env) for a in t[1:]]
     if k == "not":
         return z3.Not(args[0])
@@ -177,6 +199,11 @@ def real_consts():
     return _CONSTS
 
 
+def real_function(name):
+    from smt_encoding.constraints.function import Function, Sort
+    return Function(name, Sort.integer, Sort.integer, Sort.integer if name == "f" else Sort.boolean)
+
+
 def construct(t):
     """the formula built through the real constructors, bottom-up"""
     import smt_encoding.constraints.connector_factory as cf
@@ -185,6 +212,8 @@ def construct(t):
         return real_consts()[t[1]]
     if k in ("lit", "int"):
         return t[1]
+    if k in ("appi", "appb"):
+        return real_function(t[1])(*[construct(a) for a in t[2:]])     # a fresh Function object each time, as the encoder does
     args = [construct(a) for a in t[1:]]
     fn = {"not": cf.add_not, "and": cf.add_and, "or": cf.add_or, "=>": cf.add_implies, "=": cf.add_eq,
           "<": cf.add_lt, "<=": cf.add_leq, "distinct": cf.add_distinct}[k]
@@ -202,7 +231,7 @@ def built_to_z3(f, env):
     if isinstance(f, ExpressionReference):
         if len(f.arguments) == 0:
             return env[str(f.func)]
-        raise ValueError("unexpected application")
+        return env[str(f.func)](*[built_to_z3(a, env) for a in f.arguments])
     if isinstance(f, Connector):
         return raw_to_z3((f.connector_name,) + tuple(("z3", built_to_z3(a, env)) for a in f.arguments), _Pass())
     raise ValueError("unexpected object %r" % (f,))
@@ -256,6 +285,8 @@ def show(t):
         return "true" if t[1] else "false"
     if k == "int":
         return str(t[1])
+    if k in ("appi", "appb"):
+        return "(%s %s)" % (t[1], " ".join(show(a) for a in t[2:]))
     return "(%s %s)" % (k, " ".join(show(a) for a in t[1:]))
 
 
